@@ -137,7 +137,7 @@ def run_native(unit, adapter, inputs):
         return None, 'adapter build failed: ' + bout[-3000:]
     os.environ.setdefault('ASAN_OPTIONS', 'detect_leaks=0')
     try:
-        p = subprocess.run([exe] + ['%s=%s' % (k, v) for k, v in inputs.items()], stdout=subprocess.PIPE, stderr=subprocess.STDOUT, text=True, timeout=60)
+        p = subprocess.run([exe] + ['%s=%s' % (k, v) for k, v in inputs.items()], stdout=subprocess.PIPE, stderr=subprocess.STDOUT, text=True, errors='replace', timeout=60)
     except subprocess.TimeoutExpired as e:
         return True, 'CONFIRMED (non-termination): the real code did not return within 60 s on this input\n' + str((e.stdout or b'')[-500:])
     out = p.stdout
